@@ -71,7 +71,8 @@ func c12Gen() *symir.Gen {
 		g.Kinds = symir.KScalar | symir.KConstScalar | symir.KRef | symir.KArray | symir.KMap | symir.KStruct | symir.KDisjunction
 		g.Width = 1
 		g.UnionWidth = 3
-		g.Leaves |= symir.KNullScalar
+		g.UnionTailLeaves = symir.KScalar | symir.KNullScalar
+		g.UnionExtraLeaves = symir.KNullScalar
 	}
 	return g
 }
